@@ -4,7 +4,7 @@
 Require Extraction.
 Require Import ExtrOcamlBasic.
 From MOC.Base Require Import RangeSet.
-From MOC.Model Require Import Qty Ops1D Query Expr Build Repr Serial ST STSerial TextValid Store MocSet Freq SetQuery Neigh Valued ValuedCheck.
+From MOC.Model Require Import Qty Ops1D Query Expr Build Repr Serial ST STSerial TextValid Store MocSet Freq SetQuery Neigh Valued ValuedCheck SetEffects.
 Extraction Language OCaml.
 Extraction "moc_model.ml"
   RangeSet.covb RangeSet.canonb RangeSet.canon_of
@@ -26,4 +26,5 @@ Extraction "moc_model.ml"
   SetQuery.query SetQuery.query_pos SetQuery.union_query SetQuery.union_pos SetQuery.union_ids SetQuery.matches_floor
   Neigh.nb8 Neigh.nb4 Neigh.cells_of Neigh.expanded_spec Neigh.contracted_spec Neigh.ext_border_spec Neigh.int_border_spec
   Neigh.split_okb Neigh.fill_okb Neigh.tf_expanded Neigh.tf_contracted
-  Valued.select Valued.desc Valued.desc_rev ValuedCheck.check.
+  Valued.select Valued.desc Valued.desc_rev ValuedCheck.check
+  SetEffects.mk_file SetEffects.at_prefix SetEffects.n_effects SetEffects.cleanup SetEffects.view SetEffects.sizes_of SetEffects.effects_of.
